@@ -24,6 +24,7 @@ def spaces(tier):
             dict(size=2, level=0, cfg='K0', t0=['empty'], mut='outputs', kw=small),
             dict(size=2, level=1, cfg='K0', t0=['file_d'], mut='none', kw=small),
             dict(family='pairs', size=1, level=0, cfg='K0', t0=['empty'], mut='none'),
+            dict(family='chain3', size=3, level=0, cfg='K0', t0=['empty'], mut='none'),
         ]
     return [
         dict(size=1, level=l, cfg=c, t0=list(gen.T0S), mut='rel') for l in (0, 1, 2) for c in ('K0', 'K1')
